@@ -250,8 +250,8 @@ func (p *cpool) check(c *Ctx, g int, Gs []int, variants []int, reps int, first b
 }
 
 func runConc(c *Ctx) {
-	npools := c.N(5, 24)
-	reps := c.N(4, 20)
+	npools := c.N(4, 24)
+	reps := c.N(3, 20)
 	pools := make([]*cpool, npools)
 	for i := range pools {
 		r := rand.New(rand.NewSource(c.Rng.Int63()))
